@@ -60,7 +60,10 @@ def run_impl(cname, arrays, params):
     Returns ("ok", ndarray) or ("err", class name, detail)."""
     cls = CLASSES[cname]
     fz = cname in FUZZY_IN
-    prods = [producer("in%d" % i, a, fz) for i, a in enumerate(arrays)]
+    prods = []
+    for i, a in enumerate(arrays):
+        same = [j for j in range(i) if arrays[j] is a]
+        prods.append(prods[same[0]] if same else producer("in%d" % i, a, fz))      # the same array object = the same result mentioned again
     args = []
     if cname in NARY:
         args.append(Argument("InFieldNames", prods, 1))
@@ -72,6 +75,8 @@ def run_impl(cname, arrays, params):
         args.append(Argument("InFieldName", prods[0], 1))
     for k, v in params.items():
         args.append(Argument(k, v, 2))
+    if arrays and (arrays[0].size + len(arrays)) % 3 == 0:
+        args.append(Argument("Metadata", {"DisplayName": "layer", "Description": "any text"}, 3))       # every command takes Metadata
     cmd = cls("out", args, program=None, lineno=1)
     try:
         cmd.run()
@@ -82,6 +87,23 @@ def run_impl(cname, arrays, params):
     except BaseException as ex:   # nothing else may escape (C13); reported by the callers
         return ("err", "ESCAPED:" + type(ex).__name__, str(ex)[:120])
     return ("ok", cmd._result)
+
+
+def run_shared(cnames_params, array):
+    """several single-input commands run one after the other on the SAME producer command (one layer used by several conversions)"""
+    prod = producer("in0", array, False)
+    outs = []
+    for cname, params in cnames_params:
+        args = [Argument("InFieldName", prod, 1)] + [Argument(k, v, 2) for k, v in params.items()]
+        cmd = CLASSES[cname]("out", args, program=None, lineno=1)
+        try:
+            cmd.run()
+            outs.append(("ok", cmd._result))
+        except UnexpectedError as ex:
+            outs.append(("err", "UnexpectedError", type(ex.exc).__name__ + ": " + str(ex.exc)[:120]))
+        except MPilotError as ex:
+            outs.append(("err", type(ex).__name__, ""))
+    return outs
 
 
 def canon(a):
